@@ -16,6 +16,9 @@ io/Registry.vos io/Registry.vok io/Registry.required_vos: io/Registry.v base/Jso
 io/RegistryFacts.vo io/RegistryFacts.glob io/RegistryFacts.v.beautified io/RegistryFacts.required_vo: io/RegistryFacts.v base/PyStr.vo base/PyStrFacts.vo base/Json.vo io/Registry.vo
 io/RegistryFacts.vio: io/RegistryFacts.v base/PyStr.vio base/PyStrFacts.vio base/Json.vio io/Registry.vio
 io/RegistryFacts.vos io/RegistryFacts.vok io/RegistryFacts.required_vos: io/RegistryFacts.v base/PyStr.vos base/PyStrFacts.vos base/Json.vos io/Registry.vos
+card/BuildersFacts.vo card/BuildersFacts.glob card/BuildersFacts.v.beautified card/BuildersFacts.required_vo: card/BuildersFacts.v base/PyStr.vo base/PyStrFacts.vo card/CardStr.vo card/Path.vo card/PathFacts.vo base/Json.vo card/Tree.vo card/TreeFacts.vo card/Ops.vo card/Render.vo card/Spec.vo card/OpsFacts.vo card/RenderFacts.vo
+card/BuildersFacts.vio: card/BuildersFacts.v base/PyStr.vio base/PyStrFacts.vio card/CardStr.vio card/Path.vio card/PathFacts.vio base/Json.vio card/Tree.vio card/TreeFacts.vio card/Ops.vio card/Render.vio card/Spec.vio card/OpsFacts.vio card/RenderFacts.vio
+card/BuildersFacts.vos card/BuildersFacts.vok card/BuildersFacts.required_vos: card/BuildersFacts.v base/PyStr.vos base/PyStrFacts.vos card/CardStr.vos card/Path.vos card/PathFacts.vos base/Json.vos card/Tree.vos card/TreeFacts.vos card/Ops.vos card/Render.vos card/Spec.vos card/OpsFacts.vos card/RenderFacts.vos
 card/CardStr.vo card/CardStr.glob card/CardStr.v.beautified card/CardStr.required_vo: card/CardStr.v base/PyStr.vo
 card/CardStr.vio: card/CardStr.v base/PyStr.vio
 card/CardStr.vos card/CardStr.vok card/CardStr.required_vos: card/CardStr.v base/PyStr.vos
@@ -34,6 +37,9 @@ card/PathFacts.vos card/PathFacts.vok card/PathFacts.required_vos: card/PathFact
 card/Render.vo card/Render.glob card/Render.v.beautified card/Render.required_vo: card/Render.v card/Tree.vo
 card/Render.vio: card/Render.v card/Tree.vio
 card/Render.vos card/Render.vok card/Render.required_vos: card/Render.v card/Tree.vos
+card/RenderFacts.vo card/RenderFacts.glob card/RenderFacts.v.beautified card/RenderFacts.required_vo: card/RenderFacts.v base/PyStr.vo base/PyStrFacts.vo card/CardStr.vo card/Path.vo card/PathFacts.vo base/Json.vo card/Tree.vo card/TreeFacts.vo card/Ops.vo card/Render.vo card/Spec.vo
+card/RenderFacts.vio: card/RenderFacts.v base/PyStr.vio base/PyStrFacts.vio card/CardStr.vio card/Path.vio card/PathFacts.vio base/Json.vio card/Tree.vio card/TreeFacts.vio card/Ops.vio card/Render.vio card/Spec.vio
+card/RenderFacts.vos card/RenderFacts.vok card/RenderFacts.required_vos: card/RenderFacts.v base/PyStr.vos base/PyStrFacts.vos card/CardStr.vos card/Path.vos card/PathFacts.vos base/Json.vos card/Tree.vos card/TreeFacts.vos card/Ops.vos card/Render.vos card/Spec.vos
 card/Show.vo card/Show.glob card/Show.v.beautified card/Show.required_vo: card/Show.v card/Ops.vo card/Render.vo
 card/Show.vio: card/Show.v card/Ops.vio card/Render.vio
 card/Show.vos card/Show.vok card/Show.required_vos: card/Show.v card/Ops.vos card/Render.vos
